@@ -136,6 +136,7 @@ theorem lzma2Loop_spec : ∀ (fuel : Nat) (s : St), s.inPos ≤ s.inp.size → s
         have hlim1 : s1.dp.pos ≤ s1.dp.limit := h1.in_limit hlim
         exact h1.trans (lzma2Loop_spec fuel s1 hin1 hlim1)
       simp only []
+      generalize (if hlt : s.inPos < s.inp.size then s.inp[s.inPos] else 0) = b8
       split
       · -- control
         next hseq =>
@@ -145,11 +146,10 @@ theorem lzma2Loop_spec : ∀ (fuel : Nat) (s : St), s.inPos ≤ s.inp.size → s
         · exact c1
         · split
           · exact c1
-          · have c2 := c1.trans (cr_controlApply { s with inPos := s.inPos + 1 }
-              (controlStep ((s.inp.data.getD s.inPos 0).toNat) s.l2.needProperties s.l2.needDictionaryReset))
+          · have c2 := fun a => c1.trans (cr_controlApply { s with inPos := s.inPos + 1 } a)
             split
-            · exact c2.trans (Cr.of_same rfl rfl rfl rfl rfl rfl rfl)
-            · exact cont _ c2
+            · exact (c2 _).trans (Cr.of_same rfl rfl rfl rfl rfl rfl rfl)
+            · exact cont _ (c2 _)
       · next hseq =>
         have hb := hbyte (by rw [hseq]; decide)
         exact cont _ (Cr.of_byte hb rfl rfl rfl rfl rfl rfl rfl)
